@@ -12,7 +12,8 @@ def observe(case, kind, vectors):
     et = SelChoiceEncoderType.COMPLETE if kind == 'complete' else SelChoiceEncoderType.FAST
     gp = GraphProcessor(b.dsg, encoder_type=et)
     import pickle, base64
-    out = {'graph_pickle': base64.b64encode(pickle.dumps(b.dsg)).decode(), 'des_vars': [[dv.name, dv.n_opts, None if dv.bounds is None else [float(x) for x in dv.bounds]] for dv in gp.des_vars],
+    out = {'graph_pickle': base64.b64encode(pickle.dumps(b.dsg)).decode(),
+           'processor_pickle': base64.b64encode(pickle.dumps(gp)).decode(), 'des_vars': [[dv.name, dv.n_opts, None if dv.bounds is None else [float(x) for x in dv.bounds]] for dv in gp.des_vars],
            'fingerprint_stable': b.dsg.copy().is_same(b.dsg), 'decodes': []}
     for x in vectors:
         inst, x2, act = gp.get_graph(list(x))
